@@ -791,6 +791,19 @@ func (en *Env) callExpr(e *ECall) Val {
 			v := en.eval(e.Args[0])
 			en.st = saved
 			return v
+		case "oldheap":
+			// the entry heap read through the CURRENT values of locals (old() reads locals in the entry state too)
+			if en.old == nil {
+				en.fail("oldheap() not available here")
+			}
+			saved := en.st
+			h := saved.clone()
+			h.heap = en.old.heap
+			h.allocCtr = en.old.allocCtr
+			en.st = h
+			v := en.eval(e.Args[0])
+			en.st = saved
+			return v
 		case "len", "cap":
 			x := en.eval(e.Args[0])
 			switch x.T.Underlying().(type) {
